@@ -236,6 +236,43 @@ fn run() {
                     let summary = engine.trading_summary_generator(rf).generate(Daily);
                     observe(engine, n, &summary, lines);
                 }
+                // a position opened, flipped by ONE opposite fill of twice its size (closes it and opens the
+                // opposite position in the same step), the remainder closed at the same price: two closed positions
+                "flip" => {
+                    let Some(Sut::Engine(engine)) = sut.as_mut() else {
+                        panic!("flip needs engine mode")
+                    };
+                    let i: usize = op[1].parse().unwrap();
+                    let idx = instrument_index(engine, i);
+                    let (open, close) = match op[2].as_str() {
+                        "B" => (Side::Buy, Side::Sell),
+                        "S" => (Side::Sell, Side::Buy),
+                        other => panic!("bad side {other}"),
+                    };
+                    let (entry, qty, exit) = (parse_dec(&op[3]), parse_dec(&op[4]), parse_dec(&op[5]));
+                    let (fee_in, fee_out) = (parse_dec(&op[6]), parse_dec(&op[7]));
+                    let e1 = trade_event(engine, k, 0, idx, open, entry, qty, fee_in);
+                    let a1 = engine.process(e1);
+                    assert!(position_exits(&a1).is_empty(), "opening fill closes nothing");
+                    let e2 = trade_event(engine, k, 1, idx, close, exit, qty + qty, fee_out);
+                    let a2 = engine.process(e2);
+                    let e3 = trade_event(engine, k, 2, idx, open, exit, qty, Decimal::ZERO);
+                    let a3 = engine.process(e3);
+                    for a in [&a2, &a3] {
+                        let exits = position_exits(a);
+                        assert_eq!(exits.len(), 1, "each of the two fills exits exactly one position");
+                        let p = &exits[0];
+                        assert_eq!(p.instrument, InstrumentIndex(idx));
+                        lines.push(format!(
+                            "closed {i} {} {} {}",
+                            fmt_dec(p.pnl_realised),
+                            fmt_dec(p.price_entry_average),
+                            fmt_dec(p.quantity_abs_max)
+                        ));
+                    }
+                    let summary = engine.trading_summary_generator(rf).generate(Daily);
+                    observe(engine, n, &summary, lines);
+                }
                 "bal" => {
                     let a: usize = op[1].parse().unwrap();
                     let t: i64 = op[2].parse().unwrap();
@@ -317,8 +354,10 @@ fn gen_rt(rng: &mut Rng, n: usize, bias: u64) -> String {
             dec_str(*rng.pick(&[0i64, 1, 25]), 2),
         )
     };
+    // a quarter of the round trips go through a position FLIP (closed by one opposite fill of twice the size)
+    let op = if rng.chance(25) { "flip" } else { "rt" };
     format!(
-        "rt {i} {side} {} {} {} {} {}",
+        "{op} {i} {side} {} {} {} {} {}",
         dec_str(em, es),
         dec_str(qm, qs),
         dec_str(exit_m, es),
